@@ -36,7 +36,8 @@ class C06(Harness):
                    'joint acceptance: structured well-formed documents (shapes S1/S2/S3 as in C03, same domain restrictions)',
                    'value comparison: the sequence of value lines that are non-empty after trimming whitespace',
                    'additionally the S1 skeletons with continuation lines allowed to start with "#" (both readers treat such a line as a comment): agreement is decided whenever both accept',
-                   'and the S2 skeletons with continuation lines that may consist of whitespace only (a blank value line for both readers): agreement is decided whenever both accept']
+                   'and the S2 skeletons with continuation lines that may consist of whitespace only (a blank value line for both readers): agreement is decided whenever both accept',
+                   'and the S2 skeletons with every line ending chosen among LF, a bare CR and CR LF (so an empty line may be a lone CR): agreement is decided whenever both accept']
     oracle_leniency = ['blank value lines (empty or whitespace only) are ignored on both sides, as the statement compares non-blank value lines']
 
     def cases(self, tier):
@@ -46,15 +47,16 @@ class C06(Harness):
         cs.append({'shape': 'S2', 'L': b['S2_lines'], 'order': 5})
         cs.append({'shape': 'S1', 'L': b['S1_lines'], 'cont_hash': True, 'order': 4})
         cs.append({'shape': 'S2', 'L': b['S1_lines'], 'blank_cont': True, 'order': 4})
+        cs.append({'shape': 'S2', 'L': b['S1_lines'], 'eol_free': True, 'order': 5})
         if 'S3_lines' in b: cs.append({'shape': 'S3', 'L': b['S3_lines'], 'w': 2, 'order': 6})
         return cs
 
     def run(self, e, case):
         wf = case['shape'] != 'free'
         if wf:
-            text, paras, kinds = gen_doc(e, case['shape'], case['L'], w=case.get('w', 2), cont_hash=case.get('cont_hash', False), blank_cont=case.get('blank_cont', False))
+            text, paras, kinds = gen_doc(e, case['shape'], case['L'], w=case.get('w', 2), cont_hash=case.get('cont_hash', False), blank_cont=case.get('blank_cont', False), eol_free=case.get('eol_free', False))
             s = Str(text); e.inputs['kinds'] = kinds
-            if case.get('cont_hash') or case.get('blank_cont'): wf = False     # indented '#' lines are outside C03's domain: agreement is required, acceptance is not
+            if case.get('cont_hash') or case.get('blank_cont') or case.get('eol_free'): wf = False     # indented '#' lines are outside C03's domain: agreement is required, acceptance is not
         else:
             s = sym_text(e, case['n'])
         e.inputs['s'] = s; e.inputs['wf'] = wf
